@@ -4,6 +4,40 @@ _NOTE = ('Trusted: CPython ast, mypy-inferred receiver types (callee resolution)
          'modules. Decides only the structural clauses named; runtime values, timing and histories are not decided.')
 
 CLAIMS = {
+    'C01': {
+        'text': 'Default attribute table (ORIGIN/AS_PATH/LOCAL_PREF per session type, local AS vs peer AS); ASPath.pack_attribute '
+                'AS_TRANS/AS4_PATH structure; every make_aspath of caller-provided ASNs is 4 bytes wide; the ADD-PATH tables of '
+                'all pack_nlri implementations agree and use the send direction; negotiated ADD-PATH directions; MP_REACH / '
+                'MP_UNREACH layout and codes; next-hop self resolved before every RIB insertion into a fresh attribute '
+                'collection. Not decided: value-level round trip of every route against an independent decoder.',
+        'note': _NOTE,
+        'technique': 'decision-table extraction from lambda/if trees compared with an RFC oracle, sibling table agreement, def-use provenance, constant folding',
+    },
+    'C02': {
+        'text': 'Announce/withdraw label flow from the UPDATE sections and MP attributes to the lists, the constructor parameters, '
+                'the JSON keys and the Adj-RIB-In calls; decoder Action and ADD-PATH direction (receive) per section; twin '
+                'handlers identical in normal form; validator and lazy parser of MP_REACH walk the same offsets; next hop '
+                'attribution (first address); AS_PATH/AS4_PATH merge slices and packing width. Not decided: field-by-field '
+                'equality with a reference decoder.',
+        'note': _NOTE,
+        'technique': 'label-flow (taint-style) def-use tracking, sibling normal-form comparison, offset-sequence agreement, constant folding',
+    },
+    'C09': {
+        'text': 'Budget expression as a linear form (msg_size - 23 - len(attr)); MP generator budgets subtract every buffer '
+                'concatenated into the same yield; length predictors agree with writers on the 255 switch; buffers grow only '
+                'under the room test; the prefix that triggers a split starts the next buffer; no room means no message. Not '
+                'decided: the arithmetic at the 255/256 and 4096/65535 boundaries for all inputs.',
+        'note': _NOTE,
+        'technique': 'linear-form normalisation, yield/budget name-set comparison, guard extraction, statement-order flow after yields',
+    },
+    'C11': {
+        'text': 'replace_restart dominates the first send in _main and re-queues exactly the cached routes with force=True plus '
+                'previous-minus-new withdraws; _reset reaches reset_rib; reset drains queues but keeps the cache; the automatic '
+                'End-of-RIB is guarded by (generator exhausted and send_eor) and covers every negotiated family; withdraws always '
+                'leave the cache. Not decided: every cut point between two messages.',
+        'note': _NOTE,
+        'technique': 'dominance on the _main CFG, call-argument folding, guard-set comparison, def-use',
+    },
     'C14': {
         'text': 'Every command handler (about 45, with the callback it schedules, the handlers it delegates to and the helpers '
                 'that answer for it) gives exactly one terminal answer on every CFG path, exceptions included; RIB effects come '
